@@ -195,32 +195,23 @@ func unflatten(t types.Type, cells func(i int) Value, pos *int) Value {
 
 // NewObject allocates a plain object of type t with zero cells in the current heap.
 func (m *Machine) NewObject(t types.Type, site string) *Object {
-	m.nextObj++
-	o := &Object{ID: m.nextObj, Kind: KPlain, Site: site, T: t}
 	cells := flatten(t, m.ZeroValue(t), nil)
-	o.NCells = len(cells)
-	m.heap.Init(o, cells)
-	m.NObjects++
-	return o
+	return m.canonObject(Object{Kind: KPlain, Site: site, T: t, NCells: len(cells)}, cells)
 }
 
 // NewArray allocates a backing array of n elements of type elem.
 func (m *Machine) NewArray(elem types.Type, n int, site string) *Object {
-	m.nextObj++
-	o := &Object{ID: m.nextObj, Kind: KPlain, Site: site, T: types.NewArray(elem, int64(n)), ElemSize: cellCount(elem)}
 	var cells []Value
 	for i := 0; i < n; i++ {
 		cells = flatten(elem, m.ZeroValue(elem), cells)
 	}
-	o.NCells = len(cells)
-	m.heap.Init(o, cells)
-	m.NObjects++
-	return o
+	return m.canonObject(Object{Kind: KPlain, Site: site, T: types.NewArray(elem, int64(n)), ElemSize: cellCount(elem), NCells: len(cells)}, cells)
 }
 
 // Load reads a value of type t through pointer p under guard g (nil deref is a panic obligation).
 func (m *Machine) Load(it *Item, p Ptr, t types.Type) Value {
 	c := m.C
+	p = m.restrictPtr(m.lits(it.G), p)
 	nn := m.ptrNonNil(p)
 	m.obligePanic(it, c.Not(nn), "nil pointer dereference (load)")
 	var res Value
@@ -241,7 +232,7 @@ func (m *Machine) Load(it *Item, p Ptr, t types.Type) Value {
 	if res == nil {
 		return m.ZeroValue(t)
 	}
-	return res
+	return m.Restrict(it.G, res)
 }
 
 // Store writes v of type t through p under guard g.
